@@ -585,7 +585,7 @@ def base_globals():
         "iter": Builtin("iter", _iter),
         "slice": TypeObj("slice"),
         "str": TypeObj("str"),
-        "dict": TupleType("dict", lambda eng, *a, **kw: dict(*a, **kw)),
+        "dict": DictType("dict", lambda eng, *a, **kw: dict(*a, **kw)),
         "zero": ZERO,
         "one": ONE,
         "PENDING": PENDING,
@@ -596,6 +596,24 @@ def base_globals():
         "None": None,
     }
     return g
+
+
+class DictType(Builtin):
+    """`dict` as a callable, as a type in isinstance and with the classmethod `fromkeys`."""
+
+    def __init__(self, name, fn):
+        super().__init__(name, fn)
+        self.typename = name
+
+    def m_getattr(self, eng, name):
+        if name == "fromkeys":
+            def fromkeys(e, keys, value=None):
+                s = e.as_seq(keys)
+                if s.tail is not None:
+                    raise Unsupported("dict.fromkeys over a symbolic-length sequence")
+                return {e.hashable(k): value for k in s.items}
+            return Builtin("dict.fromkeys", fromkeys)
+        raise Unsupported(f"dict.{name}")
 
 
 class TupleType(Builtin):
